@@ -498,6 +498,69 @@ def run_loops(ctx, res, thorough):
                     del sys.modules[k]
 
 
+RESULT_TYPES = [
+    # (what, source of f1 (the kept function); f0 keeps it and returns repr of what the keep returned)
+    ("a dict with integer, float, boolean and None keys", "def f1():\n    log('f1')\n    return {1: 'a', 2.5: 'b', True: 'c', None: 'd', 'k': 7}\n"),
+    ("a dict with tuple values", "def f1():\n    log('f1')\n    return {'a': (1, 3), 'b': [(1,), ()], 'c': {'d': (2, (3, 4))}}\n"),
+    ("a dict with only integer keys", "def f1():\n    log('f1')\n    return {2: 2, 10: {3: 4}}\n"),
+    ("an empty dict, list, tuple, set", "def f1():\n    log('f1')\n    return [{}, [], (), set(), frozenset()]\n"),
+    ("nested tuples and lists", "def f1():\n    log('f1')\n    return (1, [2, (3, [4, (5,)])], 'x', b'y', bytearray(b'z'))\n"),
+    ("numbers of every kind", "def f1():\n    log('f1')\n    return [0, -0.0, 1e300, 10 ** 40, True, 1.5, complex(1, 2), float('inf')]\n"),
+    ("sets and frozensets", "def f1():\n    log('f1')\n    return [sorted(set([3, 1, 2])), frozenset([7]), {5}]\n"),
+    ("an ordered dict, a range, a slice, bytes", "import collections\n\ndef f1():\n    log('f1')\n    return [collections.OrderedDict([(2, 1), (1, 2)]), range(3), slice(1, 2), b'', '', None]\n"),
+    ("a named tuple of a library and an object of a class of the accepted module",
+     "from ddsverif_rt import Pair\n\nclass Box(object):\n    def __init__(self, v):\n        self.v = v\n"
+     "    def __repr__(self):\n        return 'Box(%r)' % (self.v,)\n\ndef f1():\n    log('f1')\n    return [Pair(1, (2, 3)), Box({1: (1,)}), Pair]\n"),
+    ("a long string with characters outside ASCII and line ends", "def f1():\n    log('f1')\n    return 'h\\u00e9\\r\\n\\u20ac\\n' * 30000 + '\\r'\n"),
+    ("bytes with every byte value", "def f1():\n    log('f1')\n    return bytes(range(256)) * 300\n"),
+]
+
+
+def run_result_types(ctx, res, thorough):
+    """the value a keep returns is the value of plain execution, whatever its type, also when it is served from the store:
+    by the evaluation that computed it, by a second evaluation and by one that uses a new store object on the same directories"""
+    real = pipeline.real_runner()
+    ref = pipeline.ref_worker()
+    tail = ("\n@dds.data_function('/rt/d')\ndef f2():\n    return f1()\n\ndef f0():\n    a = dds.keep('/rt/p', f1)\n    b = f2()\n"
+            "    return repr((type(a).__name__, a, type(b).__name__, b))\n")
+    for li, (what, fsrc) in enumerate(RESULT_TYPES):
+        for store_kind in ("memory", "local", "local_lru"):
+            base = tempfile.mkdtemp(prefix="ddsverif_c01t_")
+            pkg = "c1t_%d_%d_%s" % (os.getpid(), li, store_kind)
+            try:
+                real.reset_process_state()
+                real.set_store(store_kind, os.path.join(base, "si"), os.path.join(base, "sd"))
+                ref.call(cmd="refpaths", paths={})
+                src = "import dds\nfrom ddsverif_rt import log, term\n\n" + fsrc + tail
+                os.makedirs(os.path.join(base, pkg), exist_ok=True)
+                open(os.path.join(base, pkg, "__init__.py"), "w").close()
+                with open(os.path.join(base, pkg, "main.py"), "w") as fh:
+                    fh.write(src)
+                real.load_world(base, pkg + ".main", None, accept=pkg)
+                ref.call(cmd="world", dir=base, module=pkg + ".main", extmod=None)
+                for attempt in (1, 2, 3):
+                    if attempt == 3 and store_kind != "memory":
+                        real.set_store(store_kind, os.path.join(base, "si"), os.path.join(base, "sd"))
+                    entry = {"kind": "eval", "fun": "f0"}
+                    rr = ref.call(cmd="run", entry=entry)
+                    r = real.run(entry)
+                    res.evaluations += 1
+                    res.count("result_type_steps")
+                    res.nontrivial("result types %d %s %d" % (li, store_kind, attempt))
+                    if rr.get("error") is not None:
+                        raise common.Infra("result-type case %d does not run: %s" % (li, rr["error"]))
+                    if r["error"] is not None or r["value"] != rr["value"]:
+                        res.violations.append({"what": "%s kept on the %s store: dds returns %.300r (error %s), plain execution %.300r"
+                                                       % (what, store_kind, r["value"], r["error"], rr["value"]),
+                                               "input": {"source": src, "evaluation": attempt, "store": store_kind}, "kf": None})
+                        break
+            finally:
+                shutil.rmtree(base, ignore_errors=True)
+                for k in list(sys.modules):
+                    if k.split(".")[0] == pkg:
+                        del sys.modules[k]
+
+
 NOTEBOOK = r"""
 import sys, json
 sys.path.insert(0, %(repo)r)
